@@ -258,6 +258,10 @@ func s3Aliasing() []BashCase {
 		"two-literals-returned":     {fn("pair", nil, []Type{TSliceString, TSliceString}, ret(SliceLit{TString, []Expr{sl("a")}}, SliceLit{TString, []Expr{sl("b"), sl("c")}})), VarDecl{Names: []string{"p", "q"}, Short: true, Values: []Expr{call("pair")}}, pr(Len{vr("p")}, Len{vr("q")}, Index{"p", il(0)}, Index{"q", il(1)}), SliceSet{"p", il(0), sl("z")}, pr(Index{"q", il(0)})},
 		"two-literals-defined":      {VarDecl{Names: []string{"a", "b"}, Short: true, Values: []Expr{I(1), I(2, 3)}}, SliceSet{"a", il(0), il(7)}, pr(Len{vr("a")}, Len{vr("b")}, Index{"a", il(0)}, Index{"b", il(0)})},
 		"literal-in-literal-call":   {fn("first", []Param{{"x", TSliceInt}}, []Type{TInt}, ret(Index{"x", il(0)})), def("a", SliceLit{TInt, []Expr{call("first", I(5, 6)), call("first", I(7))}}), pr(Len{vr("a")}, Index{"a", il(0)}, Index{"a", il(1)})},
+		"swap-slice-variables": {def("a", I(1, 2, 3)), def("b", I(9)), Assign{[]string{"a", "b"}, []Expr{vr("b"), vr("a")}}, pr(Len{vr("a")}, Len{vr("b")}, Index{"a", il(0)}, Index{"b", il(2)}), SliceSet{"a", il(1), il(7)}, pr(Len{vr("a")}, Len{vr("b")}, Index{"b", il(1)})},
+		"rotate-slice-variables": {def("a", I(1)), def("b", I(2, 2)), def("c", I(3, 3, 3)), Assign{[]string{"a", "b", "c"}, []Expr{vr("b"), vr("c"), vr("a")}}, pr(Len{vr("a")}, Len{vr("b")}, Len{vr("c")}), SliceSet{"c", il(0), il(5)}, pr(Index{"a", il(0)}, Index{"b", il(0)}, Index{"c", il(0)})},
+		"swap-string-slices-in-function": {fn("flip", []Param{{"p", TSliceString}, {"q", TSliceString}}, []Type{TInt}, Assign{[]string{"p", "q"}, []Expr{vr("q"), vr("p")}}, SliceSet{"p", Len{vr("p")}, sl("tail")}, ret(Len{vr("p")})), def("x", SliceLit{TString, []Expr{sl("a b")}}), def("y", SliceLit{TString, []Expr{sl("c"), sl("")}}), def("n", call("flip", vr("x"), vr("y"))), pr(vr("n"), Len{vr("x")}, Len{vr("y")}, framed(Index{"y", il(2)}))},
+		"swap-with-definition": {def("a", I(1, 2)), def("b", I(3)), VarDecl{Names: []string{"c", "a"}, Short: true, Values: []Expr{vr("a"), vr("b")}}, pr(Len{vr("c")}, Len{vr("a")}, Index{"c", il(1)}, Index{"a", il(0)})},
 		"two-digit-indices":   {VarDecl{Names: []string{"a"}, Type: TSliceInt}, forUp("i", 25, SliceSet{"a", vr("i"), bin("*", vr("i"), vr("i"))}), pr(Len{vr("a")}, Index{"a", il(9)}, Index{"a", il(10)}, Index{"a", il(11)}, Index{"a", il(24)}), SliceSet{"a", il(10), il(-1)}, pr(Index{"a", il(1)}, Index{"a", il(10)}, Index{"a", il(0)})},
 		"element-as-index":    {def("a", I(2, 0, 1)), pr(Index{"a", Index{"a", il(0)}}, Index{"a", Index{"a", Index{"a", il(0)}}}), SliceSet{"a", Index{"a", il(1)}, il(9)}, pr(Index{"a", il(0)})},
 	}
